@@ -50,3 +50,42 @@ def generate_mapping(cx):
         a_, b_ = z3.Const('a_', S), z3.Const('b_', S)
         return z3.ForAll([a_, b_], z3.Implies(z3.And(z3.Select(dom, a_), z3.Select(dom, b_), a_ != b_), z3.Select(arr, a_) != z3.Select(arr, b_)))
     cx.ensures(post)
+
+
+@contract('bayesnet/transformer.py', 'NetworkTransformer.__add_table__', ['C15'])
+def add_table(cx):
+    """table notation: the CPT row of the r-th parent value combination (product order) is (table[r + i*rows] for i < domain size) -- own value
+    slowest, parents in product order; a table of the wrong length or a row whose sum is outside the tolerance is refused"""
+    table = cx.seq('table', DN); rows = cx.int('cpt_num_rows'); ds = cx.int('domain_size'); isnone = cx.bool('table_is_None')
+    VALID = z3.Function('cpt_entry_sum_valid', z3.SeqSort(R), B)
+    var = cx.obj('BayesVariable', domain_size=ds, parents=V('opaque'), name=cx.str('name'))
+    tbl = V('seq', table.t, ek=DN, nullable=isnone.t)
+    cx.param(self=cx.obj('NetworkTransformer', network=cx.ref('network')), variable=var, table=tbl)
+    cx.requires(rows.t >= 1, ds.t >= 1)
+    cx.call('reduce', lambda ex, st, r, a, kw: rows, trusted='reduce(mul, parent domain sizes, 1): number of parent value combinations')
+    conds = cx.seq('parent_combinations', DRef())
+    cx.requires(z3.Length(conds.t) == rows.t)
+    cx.call('product', lambda ex, st, r, a, kw: conds, trusted='itertools.product(*parent_domains): all parent value combinations, in product order (that many)')
+    cx.call('cpt_entry_sum_valid', lambda ex, st, r, a, kw: VB(VALID(a[0].t)), trusted='BayesNetwork.cpt_entry_sum_valid: |1 - sum| < tolerance')
+    cx.call('BifFormatException', lambda ex, st, r, a, kw: V('exc', 'BifFormatException'))
+    cx.call('tuple', lambda ex, st, r, a, kw: a[0])
+    cx.set_hook('empty_kinds', {'probs': DSeq(DN)})
+    i_ = z3.Int('i_')
+    cx.lemmas.append(('L-index: 0 <= i < d and 0 <= r < R imply 0 <= r + i*R < d*R (instance assumed at the current index inside the loop invariant)', None))
+
+    def set_entry(ex, st, r, a, kw):
+        row = st['row'].t; probs = a[1]
+        ex.need(st, z3.And(z3.Length(probs.t) == ds.t, VALID(probs.t),
+                           z3.ForAll([i_], z3.Implies(z3.And(0 <= i_, i_ < ds.t), probs.t[i_] == table.t[row + i_ * rows.t]))), 'cpt_row.layout@0', 'ensures')
+        return VNone()
+    cx.call('cpt_set_entry', set_entry)
+
+    def eq_none(ex, st, a, b): return None
+    cx.invariant(0, lambda st: z3.BoolVal(True))
+    cx.invariant(1, lambda st: dict(
+        prove=z3.And(z3.Length(st['probs'].t) == st['$i1'].t, 0 <= st['row'].t, st['row'].t < rows.t,
+                     z3.ForAll([i_], z3.Implies(z3.And(0 <= i_, i_ < st['$i1'].t), st['probs'].t[i_] == table.t[st['row'].t + i_ * rows.t]))),
+        assume=z3.Implies(z3.And(0 <= st['$i1'].t, st['$i1'].t < ds.t),
+                          z3.And(st['row'].t + st['$i1'].t * rows.t >= 0, st['row'].t + st['$i1'].t * rows.t < ds.t * rows.t))))
+    cx.ensures(lambda st, r: z3.Or(isnone.t, z3.Length(table.t) == ds.t * rows.t))
+    cx.raises(lambda st, e: z3.BoolVal(True))
